@@ -19,7 +19,25 @@
         → `ttl0_leaves_within_grace`.
   * "renews itself before that" → `foreign_renews_in_time`.
 
-  (broadcast distribution: see the second half of this file)
+  * "a broadcast originated by any node (ordinary, BBMD or foreign) is handed to the network
+    layer of every other node exactly once and never back to its originator, with the true
+    originator as source address"
+        → `bbmd_once` : for ANY number of subnets, ordinary nodes, foreign devices, in ANY
+          order, with one BBMD per subnet whose tables list all BBMDs with full masks (two-hop
+          unicast distribution): `World.broadcast` from an ordinary node, a BBMD or a registered
+          foreign device runs to quiescence within the fuel, changes no state, hands up nothing
+          but the payload with the originator as source and "broadcast" as destination, and does
+          so exactly once at every other served node and never at the originator (`Outcome`).
+          Hypotheses: `WF` (addressing plan), `Pop` (sane tables; no foreign device on the
+          subnet of its own BBMD), `Mesh` (full mesh), `Home` (originator and target are served
+          by some BBMD: own, subnet's, or the one registered with AND listed in its FDT).
+        → `partial_bdt_characterisation_ordinary / _bbmd / _foreign` : for an ARBITRARY BDT
+          relation (still two-hop entries naming BBMDs) the number of copies at any node is the
+          closed form {same subnet} + {subnets listed by the first BBMD: their BBMD, their
+          ordinary nodes if that BBMD lists itself, its registered foreign devices} + {the first
+          BBMD's own foreign devices}.
+        → `unregistered_foreign_hears_nothing` : while a foreign device's status is not 0
+          nothing is handed up at it, whatever flies.
 
   PARTIAL: ticks are the integer events of the model.  That the real
   `RecurringTask(1000.0)` fires on the float grid of whole seconds is checked by
@@ -27,6 +45,8 @@
   tick), not proved.
 -/
 import BacVerif.Lemmas.BipFdt
+import BacVerif.Lemmas.BipOnce
+import BacVerif.Lemmas.BipShape
 namespace BacVerif.C13
 open BacVerif.Bip
 
@@ -288,5 +308,321 @@ theorem foreign_tracks_ack (now : Nat) (f : Foreign) (b : Addr) (T : Nat) (dst :
     (foreignUp now f b dst (.result 0)).1.expireAt = some (now + (T + 30) * second) ∧
     (foreignExpire f).status = -1 := by
   simp [foreignUp, hs, hb, ht, foreignExpire]
+
+
+/-! ## broadcast distribution -/
+
+/-- the broadcast of `data` by the node with address `o` ran to completion within the fuel,
+    changed no state anywhere, handed up nothing but `data` with source `o` and a broadcast
+    destination, and handed it up exactly `k` times at the node with address `x` -/
+def Outcome (w : World) (o : Addr) (data : Data) (x : Addr) (k : Nat) : Prop :=
+  (w.broadcast o data).1.nets = w.nets ∧
+  (w.broadcast o data).2.2 = true ∧
+  (∀ ob ∈ (w.broadcast o data).2.1, ∃ a, ob = Obs.up a o .bcast data) ∧
+  (w.broadcast o data).2.1.countP (atNode x) = k
+
+theorem broadcast_unfold {w : World} (hw : WF w) {no : Net} (hno : no ∈ w.nets) {o : Node}
+    (ho : o ∈ no.nodes) (data : Data)
+    (hgood : ∀ d ∈ outDgrams no o.addr (o.st.down .bcast data), Good w d) :
+    w.broadcast o.addr data =
+      (w, outObs o.addr (o.st.down .bcast data)
+            ++ runObs fuel w (outDgrams no o.addr (o.st.down .bcast data)),
+       quietS fuel w (outDgrams no o.addr (o.st.down .bcast data))) := by
+  unfold World.broadcast World.act
+  rw [actNets_at hw (fun k => (k, k.down .bcast data)) (fun _ => rfl) hno ho]
+  simp only
+  have : ({ w with nets := w.nets } : World) = w := rfl
+  rw [this, run_static fuel w _ hgood]
+
+/-- from the weighted totals to the outcome -/
+theorem outcome_of_tot {w : World} (hw : WF w) {no : Net} (hno : no ∈ w.nets) {o : Node}
+    (ho : o ∈ no.nodes) (data : Data) (x : Addr)
+    (hobs0 : outObs o.addr (o.st.down .bcast data) = [])
+    (hgood : ∀ d ∈ outDgrams no o.addr (o.st.down .bcast data), Good w d ∧ Carries o.addr data d)
+    (k : Nat → Nat)
+    (htot : ∀ pd c, tot (poAt x c) pd fuel w (outDgrams no o.addr (o.st.down .bcast data)) = k c)
+    (hk0 : k 0 = 0) : Outcome w o.addr data x (k 1) := by
+  unfold Outcome
+  rw [broadcast_unfold hw hno ho data (fun d hd => (hgood d hd).1), hobs0, List.nil_append]
+  refine ⟨rfl, ?_, runObs_shape w o.addr data fuel _ hgood, ?_⟩
+  · rw [quietS_iff_tot]
+    have h0 : (fun _ : Obs => 0) = poAt x 0 := by funext ob; simp [poAt]
+    rw [h0, htot, hk0]
+  · rw [countP_eq_tot]
+    exact htot _ 1
+
+section dist
+variable {w : World} (hw : WF w) (hp : Pop w)
+variable {no : Net} (hno : no ∈ w.nets) {nx : Net} (hnx : nx ∈ w.nets) {x : Node} (hx : x ∈ nx.nodes)
+include hw hp hno hnx hx
+
+/-- **partial_bdt_characterisation**, ordinary originator: {same subnet} + {what the subnet's
+    BBMD forwards: listed subnets and its FDT} — for an arbitrary BDT relation -/
+theorem partial_bdt_characterisation_ordinary {oa : Addr} (ho : (⟨oa, .simple⟩ : Node) ∈ no.nodes)
+    (data : Data) :
+    Outcome w oa data x.addr (sameSubnet nx x 1 no oa + firstBbmds w nx x 1 no oa) := by
+  refine outcome_of_tot hw hno ho data x.addr rfl ?_
+    (fun c => sameSubnet nx x c no oa + firstBbmds w nx x c no oa) ?_ ?_
+  · intro d hd
+    simp only [Kind.down, simpleDown, outDgrams, List.mem_singleton] at hd
+    subst hd
+    exact ⟨Or.inl rfl, Or.inr (Or.inl ⟨rfl, rfl⟩)⟩
+  · intro pd c
+    simp only [Kind.down, simpleDown, outDgrams]
+    exact tot_orig_bcast hw hp pd c hnx hx hno oa data 11
+  · simp [sameSubnet_zero, firstBbmds_zero]
+
+/-- **partial_bdt_characterisation**, BBMD originator -/
+theorem partial_bdt_characterisation_bbmd {oa : Addr} {b : Bbmd}
+    (ho : (⟨oa, .bbmd b⟩ : Node) ∈ no.nodes) (data : Data) :
+    Outcome w oa data x.addr
+      (sameSubnet nx x 1 no oa + firstBbmds w nx x 1 no oa + fwdFrom w nx x 1 b) := by
+  obtain ⟨hca, _⟩ := bbmdOk_of hw hp hnx hx hno ho
+  refine outcome_of_tot hw hno ho data x.addr ?_ ?_
+    (fun c => sameSubnet nx x c no oa + firstBbmds w nx x c no oa + fwdFrom w nx x c b) ?_ ?_
+  · simp [Kind.down, bbmdDown, outObs, outObs_append, outObs_toPeers, outObs_toFdt]
+  · intro d hd
+    simp only [Kind.down, bbmdDown, outDgrams, List.mem_cons] at hd
+    rcases hd with rfl | hd
+    · exact ⟨Or.inl rfl, Or.inr (Or.inl ⟨rfl, rfl⟩)⟩
+    · have hc : OutsCarry oa data (toPeers b (.forwarded b.addr data) ++ toFdt b.fdt (.forwarded b.addr data)) := by
+        rw [hca]
+        exact outsCarry_append (outsCarry_toPeers oa data b) (outsCarry_toFdt oa data _)
+      have := outDgrams_carry oa data no oa _ hc d hd
+      exact ⟨Or.inl (by rw [this]; rfl), Or.inl this⟩
+  · intro pd c
+    exact tot_bbmd_origin hw hp pd c hnx hx hno ho data 11
+  · simp [sameSubnet_zero, firstBbmds_zero, fwdFrom_zero]
+
+/-- **partial_bdt_characterisation**, foreign originator registered (status 0) with the BBMD
+    `cb` of subnet `nc`: that BBMD, its subnet if it lists itself, the subnets it lists, its other
+    foreign devices -/
+theorem partial_bdt_characterisation_foreign {oa : Addr} {fs : Foreign}
+    (ho : (⟨oa, .foreign fs⟩ : Node) ∈ no.nodes)
+    {nc : Net} (hnc : nc ∈ w.nets) {ca : Addr} {cb : Bbmd} (hC : (⟨ca, .bbmd cb⟩ : Node) ∈ nc.nodes)
+    (hreg : fs.status = 0 ∧ fs.bbmd = some ca) (data : Data) :
+    Outcome w oa data x.addr (distFrom w nx x 1 nc cb oa) := by
+  have hdown : (Kind.foreign fs).down .bcast data = [.send (.station ca) (.distribute data)] := by
+    simp [Kind.down, foreignDown, hreg.1, hreg.2, optDest]
+  refine outcome_of_tot hw hno ho data x.addr ?_ ?_ (fun c => distFrom w nx x c nc cb oa) ?_ ?_
+  · simp only [hdown]; rfl
+  · intro d hd
+    simp only [hdown, outDgrams, List.mem_singleton] at hd
+    subst hd
+    refine ⟨Or.inr ⟨rfl, ?_, ?_⟩, Or.inr (Or.inr ⟨rfl, rfl⟩)⟩
+    · intro n hn
+      exact hw.2.2.1 n hn nc hnc _ hC
+    · intro n hn nd hnd hnda
+      have : nd = ⟨ca, .bbmd cb⟩ := hw.node_eq hn hnc hnd hC hnda
+      subst this; rfl
+  · intro pd c
+    simp only [hdown, outDgrams]
+    exact tot_foreign_origin hw hp pd c hnx hx hno ho hnc hC data 10
+  · simp [distFrom_zero]
+
+end dist
+
+/-! ### the full mesh -/
+
+section once
+variable {w : World} (hw : WF w) (hp : Pop w) (hm : Mesh w)
+variable {nx : Net} (hnx : nx ∈ w.nets) {x : Node} (hx : x ∈ nx.nodes) {h : Addr} (hh : Home w nx x h)
+include hw hp hm hnx hx hh
+
+theorem home_foreign_accepts (hf : x.isForeign = true) : x.accepts h = true := by
+  obtain ⟨nh, hnh, H, hH, hHa, hat⟩ := hh
+  unfold HomeAt at hat
+  split at hat
+  · next hb hst =>
+    rcases hat with h1 | h1 | h1
+    · have : x = H := hw.node_eq hnx hnh hx hH h1
+      subst this; simp [Node.isForeign, hst] at hf
+    · rcases kind_trichotomy x with k | k | k <;> simp_all
+    · exact hHa ▸ h1.1
+  · exact hat.elim
+
+/-- first-BBMD forwarding plus the same-subnet deliveries: once everywhere else -/
+theorem same_plus_fwd {no : Net} (hno : no ∈ w.nets) {o : Node} (ho : o ∈ no.nodes)
+    (hof : o.isForeign = false) {ba : Addr} {b : Bbmd} (hB : (⟨ba, .bbmd b⟩ : Node) ∈ no.nodes) :
+    sameSubnet nx x 1 no o.addr + fwdFrom w nx x 1 b = if x.addr = o.addr then 0 else 1 := by
+  rw [fwdFrom_home hw hp hm hnx hx hh hno hB]
+  unfold sameSubnet
+  rcases kind_trichotomy x with k | k | k
+  · -- ordinary target
+    have hiff := same_net_iff_home hw hp hm hnx hx hh k.2.2 hno hB
+    by_cases he : ba = h
+    · have hid := hiff.2 he
+      by_cases hxo : x.addr = o.addr <;> simp [hid, he, k.2.2, hxo]
+    · have hid : ¬ nx.id = no.id := fun hc => he (hiff.1 hc)
+      have hxo : x.addr ≠ o.addr := fun hc => hid (congrArg Net.id (hw.node_net hnx hno hx ho hc))
+      have : h ≠ ba := fun hc => he hc.symm
+      simp [hid, he, this, hxo, k.2.2]
+  · have hiff := same_net_iff_home hw hp hm hnx hx hh k.2.2 hno hB
+    by_cases he : ba = h
+    · have hid := hiff.2 he
+      by_cases hxo : x.addr = o.addr <;> simp [hid, he, k.2.2, hxo]
+    · have hid : ¬ nx.id = no.id := fun hc => he (hiff.1 hc)
+      have hxo : x.addr ≠ o.addr := fun hc => hid (congrArg Net.id (hw.node_net hnx hno hx ho hc))
+      have : h ≠ ba := fun hc => he hc.symm
+      simp [hid, he, this, hxo, k.2.2]
+  · -- foreign target: never the (non-foreign) originator
+    have hxo : x.addr ≠ o.addr := by
+      intro hc
+      have : x = o := hw.node_eq hnx hno hx ho hc
+      subst this; simp [k.2.2] at hof
+    by_cases he : ba = h
+    · simp [k.2.2, he, hxo]
+    · have : h ≠ ba := fun hc => he hc.symm
+      simp [k.2.2, he, this, hxo]
+
+/-- a foreign device's broadcast through its BBMD `C0`: once everywhere else -/
+theorem distFrom_home {no : Net} (hno : no ∈ w.nets) {o : Node} (ho : o ∈ no.nodes)
+    {nc : Net} (hnc : nc ∈ w.nets) {c0 : Addr} {cb : Bbmd} (hC : (⟨c0, .bbmd cb⟩ : Node) ∈ nc.nodes)
+    (hacc : o.accepts c0 = true) :
+    distFrom w nx x 1 nc cb o.addr = if x.addr = o.addr then 0 else 1 := by
+  obtain ⟨hca, _, hbn, _, _, _⟩ := bbmdOk_of hw hp hnx hx hnc hC
+  have hof : o.isForeign = true := accepts_foreign hacc
+  unfold distFrom
+  rw [hca, hit_home hw hp hm hnx hx hh hnc hC]
+  -- the BDT loop
+  have h1 : (cb.bdt.map fun e => if e.addr = c0 then viaLocal nc cb nx x 1 else peerVal w nx x 1 e) =
+      cb.bdt.map fun e => if e.addr = c0 then (if c0 = h ∧ x.isSimple = true then 1 else 0)
+        else (if e.addr = h then 1 else 0) := by
+    apply List.map_congr_left
+    intro e he
+    by_cases hs : e.addr = c0
+    · simp only [hs, if_true]; exact local_home hw hp hm hnx hx hh hnc hC
+    · simp only [hs, if_false]; exact peerVal_home hw hp hm hnx hx hh hnc hC e he
+  rw [h1]
+  -- the FDT loop without the originator
+  have hmem : x.addr ∈ (cb.fdt.filter fun e => e.addr ≠ o.addr).map (·.addr) ↔
+      x.addr ∈ cb.fdt.map (·.addr) ∧ x.addr ≠ o.addr := by
+    simp only [List.mem_map, List.mem_filter]
+    constructor
+    · rintro ⟨e, ⟨he, hne⟩, hea⟩
+      exact ⟨⟨e, he, hea⟩, by simpa [hea] using hne⟩
+    · rintro ⟨⟨e, he, hea⟩, hne⟩
+      exact ⟨e, ⟨he, by simpa [hea] using hne⟩, hea⟩
+  have h3 := fdt_home hw hp hm hnx hx hh hnc hC
+  rw [hca] at h3
+  have hself : c0 ∈ cb.bdt.map (·.addr) := by
+    have := hm nc hnc _ hC nc hnc _ hC rfl
+    simpa [Lists] using this
+  have hlist := home_listed hw hp hm hnx hx hh hnc hC
+  by_cases he : c0 = h
+  · subst he
+    have h2 : (cb.bdt.map fun e => if e.addr = c0 then (if c0 = c0 ∧ x.isSimple = true then 1 else 0)
+        else (if e.addr = c0 then 1 else 0)) =
+        cb.bdt.map fun e => if e.addr = c0 then (if x.isSimple = true then 1 else 0) else 0 := by
+      apply List.map_congr_left
+      intro e _
+      by_cases hs : e.addr = c0 <;> simp [hs]
+    rw [h2, sum_key_indicator (fun e : BdtEntry => e.addr) c0 _ cb.bdt hbn, if_pos hself]
+    rcases kind_trichotomy x with k | k | k
+    · have hxo : x.addr ≠ o.addr := by
+        intro hc
+        have : x = o := hw.node_eq hnx hno hx ho hc
+        subst this; simp [k.2.2] at hof
+      have : ¬ x.accepts c0 = true := fun hc => by have := accepts_foreign hc; simp [k.2.2] at this
+      simp [k.1, k.2.1, hxo, this]
+    · have hxo : x.addr ≠ o.addr := by
+        intro hc
+        have : x = o := hw.node_eq hnx hno hx ho hc
+        subst this; simp [k.2.2] at hof
+      have : ¬ x.accepts c0 = true := fun hc => by have := accepts_foreign hc; simp [k.2.2] at this
+      simp [k.1, k.2.1, hxo, this]
+    · have hx3 : (x.addr ∈ cb.fdt.map (·.addr) ∧ x.accepts c0 = true) := by
+        by_cases hc : x.addr ∈ cb.fdt.map (·.addr) ∧ x.accepts c0 = true
+        · exact hc
+        · rw [if_neg hc, if_pos ⟨rfl, k.2.2⟩] at h3
+          exact absurd h3 (by decide)
+      have e3 : (if x.addr ∈ (cb.fdt.filter fun e => e.addr ≠ o.addr).map (·.addr) ∧ x.accepts c0 = true
+            then 1 else 0) = if x.addr = o.addr then 0 else 1 := by
+        by_cases hxo : x.addr = o.addr
+        · rw [if_neg (fun hc => (hmem.1 hc.1).2 hxo), if_pos hxo]
+        · rw [if_pos ⟨hmem.2 ⟨hx3.1, hxo⟩, hx3.2⟩, if_neg hxo]
+      rw [e3]
+      simp [k.1, k.2.1]
+  · -- served by another BBMD: exactly the entry of the home BBMD contributes
+    have h2 : (cb.bdt.map fun e => if e.addr = c0 then (if c0 = h ∧ x.isSimple = true then 1 else 0)
+        else (if e.addr = h then 1 else 0)) =
+        cb.bdt.map fun e => if e.addr = h then 1 else 0 := by
+      apply List.map_congr_left
+      intro e _
+      by_cases hs : e.addr = c0
+      · have : ¬ e.addr = h := fun hc => he (hs.symm.trans hc)
+        simp [hs, he]
+      · simp [hs]
+    rw [h2, sum_key_indicator (fun e : BdtEntry => e.addr) h _ cb.bdt hbn, if_pos hlist]
+    have hxo : x.addr ≠ o.addr := by
+      intro hc
+      have : x = o := hw.node_eq hnx hno hx ho hc
+      subst this
+      exact he (accepts_inj hacc (home_foreign_accepts hw hp hm hnx hx hh hof))
+    have hna : ¬ x.accepts c0 = true := by
+      intro hc
+      exact he (accepts_inj hc (home_foreign_accepts hw hp hm hnx hx hh (accepts_foreign hc)))
+    simp [he, hxo, hna]
+
+end once
+
+/-- **bbmd_once**: in a well-addressed world (`WF`) with sane tables (`Pop`) forming a full mesh
+    (`Mesh`), a broadcast from ANY served node `o` — ordinary node, BBMD, or foreign device
+    registered with and listed by a BBMD — is handed upward exactly once at EVERY other served
+    node `x`, never at `o` itself, always with `o` as source; the run is complete (quiescent
+    within the fuel) and changes no state.  Any number of subnets, nodes, foreign devices. -/
+theorem bbmd_once {w : World} (hw : WF w) (hp : Pop w) (hm : Mesh w)
+    {no : Net} (hno : no ∈ w.nets) {o : Node} (ho : o ∈ no.nodes) {g : Addr} (hg : Home w no o g)
+    {nx : Net} (hnx : nx ∈ w.nets) {x : Node} (hx : x ∈ nx.nodes) {h : Addr} (hh : Home w nx x h)
+    (data : Data) :
+    Outcome w o.addr data x.addr (if x.addr = o.addr then 0 else 1) := by
+  obtain ⟨ng, hng, G, hG, hGa, hat⟩ := hg
+  obtain ⟨ga, gst⟩ := G
+  cases gst with
+  | simple => exact hat.elim
+  | foreign _ => exact hat.elim
+  | bbmd gb =>
+    simp only at hGa
+    subst hGa
+    simp only [HomeAt] at hat
+    obtain ⟨oa, ost⟩ := o
+    cases ost with
+    | simple =>
+      -- the BBMD of the originator's subnet
+      have hnet : no = ng := by
+        rcases hat with h1 | h1 | h1
+        · have := hw.node_eq hno hng ho hG h1; cases this
+        · exact hw.net_eq hno hng h1.2
+        · simp [Node.accepts] at h1
+      subst hnet
+      have hne : ga ≠ oa := by
+        intro hc
+        have := hw.node_eq hno hno hG ho hc; cases this
+      have := partial_bdt_characterisation_ordinary hw hp hno hnx hx ho data
+      rw [firstBbmds_eq hw hp hm hnx hx hh 1 hno hG oa, if_pos hne,
+        same_plus_fwd hw hp hm hnx hx hh hno ho rfl hG] at this
+      exact this
+    | bbmd ob =>
+      have hGo : (⟨ga, .bbmd gb⟩ : Node) = ⟨oa, .bbmd ob⟩ := by
+        rcases hat with h1 | h1 | h1
+        · exact (hw.node_eq hno hng ho hG h1).symm
+        · simp [Node.isSimple] at h1
+        · simp [Node.accepts] at h1
+      cases hGo
+      have := partial_bdt_characterisation_bbmd hw hp hno hnx hx ho data
+      rw [firstBbmds_eq hw hp hm hnx hx hh 1 hno ho ga, if_neg (by simp), Nat.add_zero,
+        same_plus_fwd hw hp hm hnx hx hh hno ho rfl ho] at this
+      exact this
+    | foreign fs =>
+      have hacc : (⟨oa, .foreign fs⟩ : Node).accepts ga = true := by
+        rcases hat with h1 | h1 | h1
+        · have := hw.node_eq hno hng ho hG h1; cases this
+        · simp [Node.isSimple] at h1
+        · exact h1.1
+      have hreg : fs.status = 0 ∧ fs.bbmd = some ga := by
+        simpa [Node.accepts] using hacc
+      have := partial_bdt_characterisation_foreign hw hp hno hnx hx ho hng hG hreg data
+      rw [distFrom_home hw hp hm hnx hx hh hno ho hng hG hacc] at this
+      exact this
 
 end BacVerif.C13
